@@ -111,4 +111,62 @@ theorem timestamp (u : List UInt8) :
     have hC : c6.toNat <<< 56 ||| b7.toNat <<< 48 < 2^60 := Nat.or_lt_two_pow l6' (by omega)
     omega
 
+
+/-! ### Construction: `TimeUUIDWith` (tuple stores into the array, `copy(u[10:], node)`, version / variant bits) -/
+
+theorem sshr_low (t : BitVec 64) (k : Nat) (hk : k ≤ 56) :
+    UInt8.ofBitVec ((BitVec.sshiftRight t k).setWidth 8) = Uuid.tbyte t.toNat k := by
+  unfold Uuid.tbyte
+  apply UInt8.toBitVec_inj.mp
+  apply BitVec.eq_of_getLsbD_eq
+  intro i hi
+  simp only [BitVec.getLsbD_setWidth, BitVec.getLsbD_sshiftRight]
+  have h1 : ¬ (64 ≤ i) := by omega
+  have h2 : k + i < 64 := by omega
+  simp [hi, h1, h2, BitVec.getLsbD]
+  rw [show (256:Nat) = 2^8 from rfl, Nat.testBit_mod_two_pow, Nat.testBit_shiftRight]
+  simp [hi]
+
+theorem low_byte (t : BitVec 64) : UInt8.ofBitVec (t.setWidth 8) = Uuid.tbyte t.toNat 0 := by
+  have := sshr_low t 0 (by omega)
+  simpa using this
+
+theorem clk_hi (c : BitVec 32) : UInt8.ofBitVec ((c >>> 8).setWidth 8) = UInt8.ofNat (c.toNat >>> 8) := by
+  apply UInt8.toBitVec_inj.mp
+  apply BitVec.eq_of_toNat_eq
+  simp [BitVec.toNat_ushiftRight]
+
+theorem clk_lo (c : BitVec 32) : UInt8.ofBitVec (c.setWidth 8) = UInt8.ofNat c.toNat := by
+  apply UInt8.toBitVec_inj.mp
+  apply BitVec.eq_of_toNat_eq
+  simp
+
+
+
+/-- `TimeUUIDWith(t, clock, node)` as re-translated from uuid.go (the sixteen stores, `copy(u[10:], node)`, version and
+    variant bits) is the model's `timeUUIDWith` on the bit patterns, for every t, clock and node slice -/
+theorem timeUUIDWith (t : BitVec 64) (c : BitVec 32) (nd : List UInt8) :
+    (Gen.Uuid.TimeUUIDWith t c (nd.map (·.toBitVec))).map UInt8.ofBitVec = Uuid.timeUUIDWith t.toNat c.toNat nd := by
+  have e24 := sshr_low t 24 (by omega)
+  have e16 := sshr_low t 16 (by omega)
+  have e8 := sshr_low t 8 (by omega)
+  have e0 := low_byte t
+  have e40 := sshr_low t 40 (by omega)
+  have e32 := sshr_low t 32 (by omega)
+  have e56 := sshr_low t 56 (by omega)
+  have e48 := sshr_low t 48 (by omega)
+  have c8 := clk_hi c
+  have c0 := clk_lo c
+  unfold Gen.Uuid.TimeUUIDWith Uuid.timeUUIDWith Uuid.nodeBytes Gen.Uuid.goCopyAt
+  match nd with
+  | [] => simp [List.replicate, *]
+  | [a] => simp [List.replicate, *]
+  | [a, b] => simp [List.replicate, *]
+  | [a, b, d] => simp [List.replicate, *]
+  | [a, b, d, e] => simp [List.replicate, *]
+  | [a, b, d, e, f] => simp [List.replicate, *]
+  | a :: b :: d :: e :: f :: g :: r =>
+    simp [List.replicate, *]
+
+
 end GenTie.C19
